@@ -12,6 +12,7 @@
  *   Q <v,..>;<p,..>;<f>     -> Evaluator(vars,f,manager), createFunctionByChangingParametersIntoVariables(p)
  *   D <var>;<f>             -> ok <differentiate(var)->getCxxFormula> | err <what>
  *   E <var>;<x=hex,..>;<f>  -> val <hex bits of differentiate(var)->getValue()> | err <what>
+ *                              (the differentiated evaluator itself sits at the point + 1)
  */
 #include <algorithm>
 #include <cassert>
@@ -106,6 +107,19 @@ static void bind(Evaluator& ev, const std::string& b) {
     const auto names = ev.getVariablesNames();
     if (std::find(names.begin(), names.end(), n) == names.end()) continue;
     ev.setVariableValue(n, frombits(kv.substr(p + 1)));
+  }
+}
+
+//! the variables of `b`, each moved by `shift`
+static void bindShifted(Evaluator& ev, const std::string& b, const double shift) {
+  if (b.empty()) return;
+  const auto names = ev.getVariablesNames();
+  for (const auto& kv : split(b, ',')) {
+    const auto p = kv.find('=');
+    if (p == std::string::npos) continue;
+    const auto n = kv.substr(0, p);
+    if (std::find(names.begin(), names.end(), n) == names.end()) continue;
+    ev.setVariableValue(n, frombits(kv.substr(p + 1)) + shift);
   }
 }
 
@@ -230,7 +244,11 @@ int main() {
         const auto f = fields(a, 2);
         if (f.size() != 3) throw std::runtime_error("bad-request");
         Evaluator ev(f[2]);
+        // the evaluator that is differentiated sits at its own point, before and after the call
+        bindShifted(ev, f[1], 2.75);
         auto d = std::dynamic_pointer_cast<Evaluator>(ev.differentiate(f[0]));
+        bindShifted(ev, f[1], 1.0);
+        // the object returned by differentiate() is evaluated as is (no copy, no resolveDependencies)
         bind(*d, f[1]);
         const auto v = d->getValue();
         std::cout << "val " << hexbits(v) << std::endl;
